@@ -88,3 +88,7 @@ package gentoo
 //@ lemma c20-range-equal [C20] uses c20-equal: forall gr *VersionRange, v1, v2 *Version :: gr != nil && v1 != nil && v2 != nil && wfRange(gr) && wf(v1) && wf(v2) && (forall i int :: 0 <= i && i < len(gr.constraints) ==> gr.constraints[i].version != nil && wf(gr.constraints[i].version) && (gr.constraints[i].operator == "=" || gr.constraints[i].operator == "!=" || gr.constraints[i].operator == "<" || gr.constraints[i].operator == "<=" || gr.constraints[i].operator == ">" || gr.constraints[i].operator == ">=")) && v1.Compare(v2) == 0 ==> ((forall i int :: 0 <= i && i < len(gr.constraints) ==> gr.constraints[i].matches(v1)) == (forall i int :: 0 <= i && i < len(gr.constraints) ==> gr.constraints[i].matches(v2)))
 // ... and the set a range without != accepts is convex in the order
 //@ lemma c20-range-convex [C20] uses c20-convex: forall gr *VersionRange, a, b, d *Version :: gr != nil && a != nil && b != nil && d != nil && wfRange(gr) && wf(a) && wf(b) && wf(d) && (forall i int :: 0 <= i && i < len(gr.constraints) ==> gr.constraints[i].version != nil && wf(gr.constraints[i].version) && (gr.constraints[i].operator == "=" || gr.constraints[i].operator == "!=" || gr.constraints[i].operator == "<" || gr.constraints[i].operator == "<=" || gr.constraints[i].operator == ">" || gr.constraints[i].operator == ">=") && gr.constraints[i].operator != "!=") && a.Compare(b) <= 0 && b.Compare(d) <= 0 && (forall i int :: 0 <= i && i < len(gr.constraints) ==> gr.constraints[i].matches(a)) && (forall i int :: 0 <= i && i < len(gr.constraints) ==> gr.constraints[i].matches(d)) ==> (forall i int :: 0 <= i && i < len(gr.constraints) ==> gr.constraints[i].matches(b))
+
+// ---- the registered name (the VERS evaluator and the CLI select behaviour by it)
+//@ func (*Ecosystem).Name
+//@   ensures result == "gentoo"   [C04 C15 C17]
